@@ -101,11 +101,12 @@ structure PolOK (cfg : Cfg) (pol : Pol) : Prop where
   sg : Sized cfg.gCount pol.g
   sg2 : Sized cfg.g2Count pol.g2
 
-/-- admissible calls: grouping rules passed to adds are well-sized, `auto_build_role_links` is not switched off,
+/-- admissible calls: grouping rules passed to adds are not LONGER than the role definition (shorter ones are refused by
+    the repaired code before anything is stored, F27), `auto_build_role_links` is not switched off,
     and what the adapter delivers on `load_policy` is a well-formed policy -/
 def OpOK (cfg : Cfg) (s : St) : Op → Prop
-  | .add sec r => sec ≠ .p → r.length = cfg.count sec
-  | .addMany sec rs => sec ≠ .p → Sized (cfg.count sec) rs
+  | .add sec r => sec ≠ .p → r.length ≤ cfg.count sec
+  | .addMany sec rs => sec ≠ .p → ∀ r ∈ rs, r.length ≤ cfg.count sec
   | .enableAutoBuild b => b = true
   | .loadPolicy _ => PolOK cfg s.store
   | _ => True
@@ -217,48 +218,68 @@ theorem Coherent.nodup {cfg : Cfg} {s : St} (h : Coherent cfg s) (sec : Sec) : (
 theorem Coherent.sizedSec {cfg : Cfg} {s : St} (h : Coherent cfg s) (sec : Sec) (hsec : sec ≠ .p) :
     Sized (cfg.count sec) (s.pol.get sec) := (h.sec sec hsec).sized
 
+theorem not_short (cfg : Cfg) (sec : Sec) (rs : List Rule) (hs : ¬ shortFor cfg sec rs = true)
+    (hle : sec ≠ .p → ∀ r ∈ rs, r.length ≤ cfg.count sec) : sec ≠ .p → Sized (cfg.count sec) rs := by
+  intro hsec r hr
+  have h1 := hle hsec r hr
+  have h2 : ¬ r.length < cfg.count sec := by
+    intro hlt
+    apply hs
+    unfold shortFor
+    have : (sec != Sec.p) = true := by simpa using hsec
+    rw [this, Bool.true_and]
+    exact List.any_eq_true.mpr ⟨r, hr, by simpa using hlt⟩
+  omega
+
 theorem step_add (cfg : Cfg) (s : St) (h : Coherent cfg s) (sec : Sec) (r : Rule)
-    (hr : sec ≠ .p → r.length = cfg.count sec) : Coherent cfg (step cfg s (.add sec r)).1 := by
+    (hr0 : sec ≠ .p → r.length ≤ cfg.count sec) : Coherent cfg (step cfg s (.add sec r)).1 := by
   simp only [step]
   cases hadd : Policy.add none (s.pol.get sec) r with
   | mk l ok =>
     cases ok with
     | false => simpa using h
     | true =>
-      have hl : l = (Policy.add none (s.pol.get sec) r).1 := by rw [hadd]
-      obtain ⟨s2, h1, h2⟩ := coherent_change cfg s h sec l true [r] (.addPolicy sec r) (exOnly cfg (.forAddPolicy sec r))
-        (fun hs x hx => by simp at hx; subst hx; exact hr hs)
-        (by rw [hl]; exact add_nodup none _ r (h.nodup sec))
-        (fun hs x hx => by
-          rw [hl, add_mem] at hx
-          rcases hx with hx | rfl
-          · exact h.sizedSec sec hs x hx
-          · exact hr hs)
-        (fun x => by rw [hl, add_mem]; simp)
-      simp only [Bool.not_true, Bool.false_eq_true, ↓reduceIte, finish, h1]
-      exact h2
+      by_cases hs : shortFor cfg sec [r] = true
+      · simp only [Bool.not_true, Bool.false_eq_true, ↓reduceIte, hs]; exact h
+      · have hr : sec ≠ .p → r.length = cfg.count sec := fun hsec =>
+          not_short cfg sec [r] hs (fun hh x hx => by simp at hx; subst hx; exact hr0 hh) hsec r (by simp)
+        have hl : l = (Policy.add none (s.pol.get sec) r).1 := by rw [hadd]
+        obtain ⟨s2, h1, h2⟩ := coherent_change cfg s h sec l true [r] (.addPolicy sec r) (exOnly cfg (.forAddPolicy sec r))
+          (fun hsec x hx => by simp at hx; subst hx; exact hr hsec)
+          (by rw [hl]; exact add_nodup none _ r (h.nodup sec))
+          (fun hsec x hx => by
+            rw [hl, add_mem] at hx
+            rcases hx with hx | rfl
+            · exact h.sizedSec sec hsec x hx
+            · exact hr hsec)
+          (fun x => by rw [hl, add_mem]; simp)
+        simp only [Bool.not_true, Bool.false_eq_true, ↓reduceIte, hs, finish, h1]
+        exact h2
 
 theorem step_addMany (cfg : Cfg) (s : St) (h : Coherent cfg s) (sec : Sec) (rs : List Rule)
-    (hr : sec ≠ .p → Sized (cfg.count sec) rs) : Coherent cfg (step cfg s (.addMany sec rs)).1 := by
+    (hr0 : sec ≠ .p → ∀ r ∈ rs, r.length ≤ cfg.count sec) : Coherent cfg (step cfg s (.addMany sec rs)).1 := by
   simp only [step]
   cases hadd : Policy.addMany none (s.pol.get sec) rs with
   | mk l ok =>
     cases ok with
     | false => simpa using h
     | true =>
-      have hok : (Policy.addMany none (s.pol.get sec) rs).2 = true := by rw [hadd]
-      have hl : l = (Policy.addMany none (s.pol.get sec) rs).1 := by rw [hadd]
-      have hsucc := addMany_success none (s.pol.get sec) rs (h.nodup sec) hok
-      obtain ⟨s2, h1, h2⟩ := coherent_change cfg s h sec l true rs (.addPolicies sec rs) (exOnly cfg (.forAddPolicies sec rs))
-        hr (by rw [hl]; exact hsucc.2)
-        (fun hs x hx => by
-          rw [hl, hsucc.1] at hx
-          rcases hx with hx | hx
-          · exact h.sizedSec sec hs x hx
-          · exact hr hs x hx)
-        (fun x => by rw [hl, hsucc.1]; simp)
-      simp only [Bool.not_true, Bool.false_eq_true, ↓reduceIte, finish, h1]
-      exact h2
+      by_cases hs : shortFor cfg sec rs = true
+      · simp only [Bool.not_true, Bool.false_eq_true, ↓reduceIte, hs]; exact h
+      · have hr : sec ≠ .p → Sized (cfg.count sec) rs := not_short cfg sec rs hs hr0
+        have hok : (Policy.addMany none (s.pol.get sec) rs).2 = true := by rw [hadd]
+        have hl : l = (Policy.addMany none (s.pol.get sec) rs).1 := by rw [hadd]
+        have hsucc := addMany_success none (s.pol.get sec) rs (h.nodup sec) hok
+        obtain ⟨s2, h1, h2⟩ := coherent_change cfg s h sec l true rs (.addPolicies sec rs) (exOnly cfg (.forAddPolicies sec rs))
+          hr (by rw [hl]; exact hsucc.2)
+          (fun hs x hx => by
+            rw [hl, hsucc.1] at hx
+            rcases hx with hx | hx
+            · exact h.sizedSec sec hs x hx
+            · exact hr hs x hx)
+          (fun x => by rw [hl, hsucc.1]; simp)
+        simp only [Bool.not_true, Bool.false_eq_true, ↓reduceIte, hs, finish, h1]
+        exact h2
 
 theorem step_remove (cfg : Cfg) (s : St) (h : Coherent cfg s) (sec : Sec) (r : Rule) :
     Coherent cfg (step cfg s (.remove sec r)).1 := by
@@ -681,7 +702,9 @@ theorem rejected_call_no_link (cfg : Cfg) (s : St) (sec : Sec) (r : Rule) (rs : 
       | false => simp
       | true =>
         simp only [Bool.not_true, Bool.false_eq_true, ↓reduceIte, finish]
-        split <;> simp
+        split
+        · simp
+        · split <;> simp
   · simp only [step]
     cases Policy.addMany none (s.pol.get sec) rs with
     | mk l ok =>
@@ -689,7 +712,27 @@ theorem rejected_call_no_link (cfg : Cfg) (s : St) (sec : Sec) (r : Rule) (rs : 
       | false => simp
       | true =>
         simp only [Bool.not_true, Bool.false_eq_true, ↓reduceIte, finish]
-        split <;> simp
+        split
+        · simp
+        · split <;> simp
+
+/-- **F27 repaired**: a grouping rule with fewer fields than its role definition is refused before anything is stored,
+    persisted, linked or notified - whatever else the batch contains -/
+theorem short_add_refused (cfg : Cfg) (s : St) (sec : Sec) (r : Rule) (hs : shortFor cfg sec [r] = true) :
+    (step cfg s (.add sec r)).1 = s := by
+  simp only [step]
+  cases Policy.add none (s.pol.get sec) r with
+  | mk l ok => cases ok <;> simp [hs]
+
+theorem short_addMany_refused (cfg : Cfg) (s : St) (sec : Sec) (rs : List Rule) (hs : shortFor cfg sec rs = true) :
+    (step cfg s (.addMany sec rs)).1 = s := by
+  simp only [step]
+  cases Policy.addMany none (s.pol.get sec) rs with
+  | mk l ok => cases ok <;> simp [hs]
+
+example : (step { gCount := 2 } { pol := { g := [["alice", "admin"]] }, links := { g := [["alice", "admin"]] } }
+    (.addMany .g [["bob", "admin"], ["carol"]])) =
+    ({ pol := { g := [["alice", "admin"]] }, links := { g := [["alice", "admin"]] } }, .error .shortGroupingRule) := by decide
 
 /-! ## Non-vacuity -/
 
